@@ -256,6 +256,17 @@ impl AsRange for DicomDate {
     }
 }
 
+/// Build a `NaiveTime` from hour, minute, second and microsecond,
+/// where a second of 60 denotes a leap second
+/// (represented in `chrono` as second 59 with the fraction exceeding one second).
+fn naive_time_with_leap_second(h: u32, m: u32, s: u32, micro: u32) -> Option<NaiveTime> {
+    if s == 60 {
+        NaiveTime::from_hms_micro_opt(h, m, 59, micro.checked_add(1_000_000)?)
+    } else {
+        NaiveTime::from_hms_micro_opt(h, m, s, micro)
+    }
+}
+
 impl AsRange for DicomTime {
     type PreciseValue = NaiveTime;
     type Range = TimeRange;
@@ -275,7 +286,7 @@ impl AsRange for DicomTime {
             },
         );
 
-        NaiveTime::from_hms_micro_opt((*h).into(), (*m).into(), (*s).into(), f).context(
+        naive_time_with_leap_second((*h).into(), (*m).into(), (*s).into(), f).context(
             InvalidTimeMicroSnafu {
                 h: *h as u32,
                 m: *m as u32,
@@ -296,7 +307,7 @@ impl AsRange for DicomTime {
                 }
             },
         );
-        NaiveTime::from_hms_micro_opt((*h).into(), (*m).into(), (*s).into(), f).context(
+        naive_time_with_leap_second((*h).into(), (*m).into(), (*s).into(), f).context(
             InvalidTimeMicroSnafu {
                 h: *h as u32,
                 m: *m as u32,
